@@ -146,7 +146,7 @@ impl Property for C14 {
     const ID: &'static str = "C14";
 
     fn rule() -> String {
-        "(a) proptest-generated containers (contents, 0..2 extra packs, dedup, directories with every property kind, variants, sorted/unsorted stores, references, 1-2 entry stores, plain/indexed/shared value stores; 3 packagings x 4 compressions) written by the current creator; every file is decoded by the independent decoder (no jubako code: own CRC, own little-endian readers, blake3/lz4/xz2/zstd crates), which asserts the layout (header/tail mirror, reserved bytes, every block CRC, pack sizes, check blocks incl. the manifest mask, locators == located headers, pack infos == listed packs incl. copied check info and locations, cluster tails and placement, key-type nibbles, padding, variant grouping, store tails) and must recover exactly the model (entries of every store, contents of every pack). (b) every container of the committed reference corpus (/verif/corpus, written by the pinned version fc3306d and kept only where the independent decoder confirmed the pinned writer wrote the model) is read with the CURRENT reader: its logical dump must equal the committed expected dump and check() must be true. Non-trivial = (a) a container with >=1 content and >=1 entry, (b) every corpus container; distinct by (packaging, compression, schema classes, sizes) / corpus name.".into()
+        "(a) proptest-generated containers (contents, 0..2 extra packs, dedup, directories with every property kind, variants, sorted/unsorted stores, references, 1-2 entry stores, plain/indexed/shared value stores; 3 packagings x 4 compressions) written by the current creator; every file is decoded by the independent decoder (no jubako code: own CRC, own little-endian readers, blake3/lz4/xz2/zstd crates), which asserts the layout (header/tail mirror, reserved bytes, every block CRC, pack sizes, check blocks incl. the manifest mask, locators == located headers, pack infos == listed packs incl. copied check info and locations, cluster tails and placement, key-type nibbles, padding, variant grouping, store tails) and must recover exactly the model (entries of every store, contents of every pack). (b) every container of the committed reference corpus (/verif/corpus, written by the pinned version fc3306d and kept only where the independent decoder confirmed the pinned writer wrote the model) is read with the CURRENT reader: its logical dump must equal the committed expected dump and check() must be true. Non-trivial = (a) a container with >=1 content and >=1 entry, (b) every corpus container; distinct by (packaging, compression, schema classes, sizes) / corpus name. Many-packs containers (3, 255, 300 packs, low-level creators): every header (container, content packs, directory, manifest) carries distinct non-default free data which the independent decoder must find; the manifest opened on its own returns every pack's free data by id and by uuid.".into()
     }
 
     fn assumptions() -> Vec<String> {
